@@ -486,6 +486,58 @@ static bool has_flonum2(Type *ty) {
   return has_flonum(ty, 8, 16, 0);
 }
 
+// Returns true if `ty` has a long double member (psABI class X87) or
+// a member that is not naturally aligned, e.g. in a packed struct.
+static bool has_memory_class(Type *ty, int offset) {
+  if (ty->kind == TY_STRUCT || ty->kind == TY_UNION) {
+    for (Member *mem = ty->members; mem; mem = mem->next)
+      if (has_memory_class(mem->ty, offset + mem->offset))
+        return true;
+    return false;
+  }
+
+  if (ty->kind == TY_ARRAY) {
+    for (int i = 0; i < ty->array_len; i++)
+      if (has_memory_class(ty->base, offset + ty->base->size * i))
+        return true;
+    return false;
+  }
+
+  return ty->kind == TY_LDOUBLE || offset % ty->align != 0;
+}
+
+// Returns true if a struct or union is passed and returned in memory
+// rather than in registers.
+bool struct_in_memory(Type *ty) {
+  return ty->size > 16 || has_memory_class(ty, 0);
+}
+
+// Counts the general-purpose and the SSE registers needed to pass a
+// struct or union of at most 16 bytes: one per eightbyte it occupies.
+static void struct_regs(Type *ty, int *gp, int *fp) {
+  bool fp1 = has_flonum1(ty);
+  *fp = fp1;
+  *gp = !fp1;
+
+  if (ty->size > 8) {
+    bool fp2 = has_flonum2(ty);
+    *fp += fp2;
+    *gp += !fp2;
+  }
+}
+
+// Returns true if a struct or union argument fits in the registers
+// left after `gp` general-purpose and `fp` SSE registers are taken.
+static bool struct_fits_regs(Type *ty, int gp, int fp) {
+  if (struct_in_memory(ty))
+    return false;
+
+  // The counters keep counting arguments after the registers ran out.
+  int ngp, nfp;
+  struct_regs(ty, &ngp, &nfp);
+  return MIN(gp, GP_MAX) + ngp <= GP_MAX && MIN(fp, FP_MAX) + nfp <= FP_MAX;
+}
+
 static void push_struct(Type *ty) {
   int sz = align_to(ty->size, 8);
   println("  sub $%d, %%rsp", sz);
@@ -550,7 +602,7 @@ static int push_args(Node *node) {
 
   // If the return type is a large struct/union, the caller passes
   // a pointer to a buffer as if it were the first argument.
-  if (node->ret_buffer && node->ty->size > 16)
+  if (node->ret_buffer && struct_in_memory(node->ty))
     gp++;
 
   // Load as many arguments to the registers as possible.
@@ -560,20 +612,14 @@ static int push_args(Node *node) {
     switch (ty->kind) {
     case TY_STRUCT:
     case TY_UNION:
-      if (ty->size > 16) {
+      if (struct_fits_regs(ty, gp, fp)) {
+        int ngp, nfp;
+        struct_regs(ty, &ngp, &nfp);
+        gp += ngp;
+        fp += nfp;
+      } else {
         arg->pass_by_stack = true;
         stack += align_to(ty->size, 8) / 8;
-      } else {
-        bool fp1 = has_flonum1(ty);
-        bool fp2 = has_flonum2(ty);
-
-        if (fp + fp1 + fp2 < FP_MAX && gp + !fp1 + !fp2 < GP_MAX) {
-          fp = fp + fp1 + fp2;
-          gp = gp + !fp1 + !fp2;
-        } else {
-          arg->pass_by_stack = true;
-          stack += align_to(ty->size, 8) / 8;
-        }
       }
       break;
     case TY_FLOAT:
@@ -606,7 +652,7 @@ static int push_args(Node *node) {
 
   // If the return type is a large struct/union, the caller passes
   // a pointer to a buffer as if it were the first argument.
-  if (node->ret_buffer && node->ty->size > 16) {
+  if (node->ret_buffer && struct_in_memory(node->ty)) {
     println("  lea %d(%%rbp), %%rax", node->ret_buffer->offset);
     push();
   }
@@ -941,7 +987,7 @@ static void gen_expr(Node *node) {
 
     // If the return type is a large struct/union, the caller passes
     // a pointer to a buffer as if it were the first argument.
-    if (node->ret_buffer && node->ty->size > 16)
+    if (node->ret_buffer && struct_in_memory(node->ty))
       pop(argreg64[gp++]);
 
     for (Node *arg = node->args; arg; arg = arg->next) {
@@ -950,24 +996,19 @@ static void gen_expr(Node *node) {
       switch (ty->kind) {
       case TY_STRUCT:
       case TY_UNION:
-        if (ty->size > 16)
+        if (arg->pass_by_stack)
           continue;
 
-        bool fp1 = has_flonum1(ty);
-        bool fp2 = has_flonum2(ty);
+        if (has_flonum1(ty))
+          popf(fp++);
+        else
+          pop(argreg64[gp++]);
 
-        if (fp + fp1 + fp2 < FP_MAX && gp + !fp1 + !fp2 < GP_MAX) {
-          if (fp1)
+        if (ty->size > 8) {
+          if (has_flonum2(ty))
             popf(fp++);
           else
             pop(argreg64[gp++]);
-
-          if (ty->size > 8) {
-            if (fp2)
-              popf(fp++);
-            else
-              pop(argreg64[gp++]);
-          }
         }
         break;
       case TY_FLOAT:
@@ -1013,7 +1054,7 @@ static void gen_expr(Node *node) {
 
     // If the return type is a small struct, a value is returned
     // using up to two registers.
-    if (node->ret_buffer && node->ty->size <= 16) {
+    if (node->ret_buffer && !struct_in_memory(node->ty)) {
       copy_ret_buffer(node->ret_buffer);
       println("  lea %d(%%rbp), %%rax", node->ret_buffer->offset);
     }
@@ -1354,7 +1395,7 @@ static void gen_stmt(Node *node) {
       switch (ty->kind) {
       case TY_STRUCT:
       case TY_UNION:
-        if (ty->size <= 16)
+        if (!struct_in_memory(ty))
           copy_struct_reg();
         else
           copy_struct_mem();
@@ -1397,14 +1438,12 @@ static void assign_lvar_offsets(Obj *prog) {
       switch (ty->kind) {
       case TY_STRUCT:
       case TY_UNION:
-        if (ty->size <= 16) {
-          bool fp1 = has_flonum(ty, 0, 8, 0);
-          bool fp2 = has_flonum(ty, 8, 16, 8);
-          if (fp + fp1 + fp2 < FP_MAX && gp + !fp1 + !fp2 < GP_MAX) {
-            fp = fp + fp1 + fp2;
-            gp = gp + !fp1 + !fp2;
-            continue;
-          }
+        if (struct_fits_regs(ty, gp, fp)) {
+          int ngp, nfp;
+          struct_regs(ty, &ngp, &nfp);
+          gp += ngp;
+          fp += nfp;
+          continue;
         }
         break;
       case TY_FLOAT:
@@ -1611,7 +1650,7 @@ static void emit_text(Obj *prog) {
       switch (ty->kind) {
       case TY_STRUCT:
       case TY_UNION:
-        assert(ty->size <= 16);
+        assert(!struct_in_memory(ty));
         if (has_flonum(ty, 0, 8, 0))
           store_fp(fp++, var->offset, MIN(8, ty->size));
         else
